@@ -107,6 +107,20 @@ example : (match (runCalls [.glob .libInit none, .ctor .htNew 0 none, .mut (.htI
     | .ok (rs, env') s => decide (rs = ['S', 'S', 'S', 'F', 'S', 'S', '-', 'S', 'S', 'S'] ∧ s.held = [] ∧ s.names = [] ∧ s.closed = [1])
     | .fault _ => false) = true := by decide
 
+/-- gap closing (coverage audit): the error exits and entry points added to the model — a refused `p_realloc`, an
+    invalid-argument call, `fstat` failing on an existing segment, `getsockopt` failing in `p_socket_new_from_fd`,
+    `pthread_attr_setdetachstate` failing in `p_uthread_create`, a thread with a long name, `munmap` failing in
+    `p_mem_munmap` — in one sequence: it ends neutral, every descriptor closed once -/
+example : (match (runCalls [.glob .libInit none, .ctor .strdup 0 none, .mut .strRealloc .str 0 none, .glob .fileRemoveMissing (some 9),
+      .ctor (.shmNew 0 0) 1 (some 9), .glob (.sysfail "fstat") none, .ctor (.shmNew 0 0) 2 (some 9),
+      .glob (.sysfail "getsockopt") none, .ctor .sockFromFd 3 (some 9),
+      .glob (.sysfail "pthread_attr_setdetachstate") none, .threadRun 4 ⟨false, false⟩ none, .threadRun 4 ⟨false, true⟩ none,
+      .ctor (.mmapNew 4096) 5 (some 9), .glob (.sysfail "munmap") none, .mut .mmapFree .mmap 5 (some 9), .mut .mmapFree .mmap 5 (some 9),
+      .dtor .thread 4, .dtor .shm 1, .dtor .str 0, .dtor .err 9, .glob .libShutdown none] {}).run (fun i => i == 4) {} with
+    | .ok (rs, env') s => decide (rs = ['S', 'S', 'F', 'F', 'S', 'S', 'F', 'S', 'F', 'S', 'F', 'S', 'S', 'S', 'F', 'S', 'S', 'S', 'S', 'S', 'S']
+        ∧ env'.slots.all (·.isNone) ∧ s.held = [] ∧ s.names = [] ∧ s.closed.length = s.nextFd)
+    | .fault _ => false) = true := by decide
+
 /-- … and while objects are live the process does hold their footprints -/
 example : (match (runCalls [.glob .libInit none, .ctor (.shmNew 0 0) 1 none] {}).run (fun _ => false) {} with
     | .ok (_, _) s => decide (s.live.length = 2 + 4 ∧ s.maps.length = 2 ∧ s.names.length = 2 ∧ s.closed = [1])
